@@ -50,10 +50,13 @@ pub fn snapshot(root: &Path, gunzip: bool, dirs: bool) -> BTreeMap<String, Vec<u
             } else {
                 let mut bytes = fs::read(&path).unwrap_or_default();
                 if gunzip && rel.ends_with(".gz") {
-                    let mut d = flate2::read::GzDecoder::new(&bytes[..]);
+                    // strict: the file is exactly one gzip member - bytes after it (a stale tail of an archive
+                    // that was overwritten in place) are corruption, too
+                    let mut d = flate2::bufread::GzDecoder::new(&bytes[..]);
                     let mut o = vec![];
                     if d.read_to_end(&mut o).is_ok() {
-                        bytes = o;
+                        let rest = d.into_inner().len();
+                        bytes = if rest == 0 { o } else { format!("<<{} bytes after the gzip member>>", rest).into_bytes() };
                     } else {
                         bytes = b"<<corrupt gzip>>".to_vec();
                     }
